@@ -9,15 +9,28 @@ open Ipfix Ipfix.Agg
 /-- correlate-field tokens in the fixed order of the configuration: six strings... see Model/Agg -/
 def corrKinds : List Nat := [0, 0, 0, 0, 0, 0, 2, 1, 1, 1, 1, 3]   -- 0 string, 1 number, 2 IPv4 address, 3 IPv6 address
 
+/-- what the harness's element constructors accept of the number at each position: destinationServicePort is an
+    unsigned16, the two rule actions are unsigned8, the rule priority a signed32 given by its 32-bit pattern -/
+def corrBounds : List Nat := [0, 0, 0, 0, 0, 0, 0, 65536, 256, 256, 4294967296, 0]
+
+/-- a decimal number as Go's strconv.ParseUint(s, 10, bits) reads it: digits only (no sign, no `_`), below `bound` -/
+def decBelow (bound : Nat) (s : String) : Option Nat :=
+  if s.isEmpty || !s.all Char.isDigit then none
+  else match s.toNat? with
+    | some n => if n < bound then some n else none
+    | none => none
+
+/-- the value token `~` at any position = the record does not carry that correlate field -/
 def parseCorr (tok : String) : Option (List CorrV) :=
   let ts := tok.splitOn ","
   if ts.length != corrKinds.length then none
-  else (ts.zip corrKinds).mapM fun (t, k) =>
-    match parseValue t, k with
-    | some (.bytes b), 0 => some (.str b)
-    | some (.num n), 1 => some (.num n)
-    | some (.bytes b), 2 => some (.ip4 b)
-    | some (.bytes b), 3 => some (.ip6 b)
+  else ((ts.zip corrKinds).zip corrBounds).mapM fun ((t, k), bound) =>
+    if t == "~" then some .absent
+    else match t.toList, k with
+    | 'n' :: r, 1 => (decBelow bound (String.ofList r)).map .num
+    | 'x' :: r, 0 => (fromHex (String.ofList r)).map .str
+    | 'x' :: r, 2 => (fromHex (String.ofList r)).map .ip4
+    | 'x' :: r, 3 => (fromHex (String.ofList r)).map .ip6
     | _, _ => none
 
 def corrToken (c : List CorrV) : String :=
@@ -25,7 +38,8 @@ def corrToken (c : List CorrV) : String :=
     | .str b => "x" ++ hexOrDash b
     | .num n => s!"n{n}"
     | .ip4 b => "x" ++ hexOrDash b
-    | .ip6 b => "x" ++ hexOrDash b)
+    | .ip6 b => "x" ++ hexOrDash b
+    | .absent => "~")
 
 def natsToken (l : List Nat) : String := ",".intercalate (l.map toString)
 
@@ -36,30 +50,52 @@ def b01 (b : Bool) : String := if b then "1" else "0"
 def aggDump (a : AggRec) : String :=
   s!"{a.flowType}/{corrToken a.corr}/{a.start}/{a.end_}/{a.endReason}/{hexOrDash a.tcpState}/{natsToken a.stats}/{natsToken a.srcStats}/{natsToken a.dstStats}/{a.endSrc}/{a.endDst}/{natsToken a.thr}/{natsToken a.thrSrc}/{natsToken a.thrDst}/{b01 a.ready}/{a.retries}/{b01 a.corrFilled}"
 
+/-- the permutation seed of a trailing `p<n>` token as Go's strconv.ParseInt(_, 10, 64) reads it; `agg rec` takes a
+    negative seed too (and then does not permute), `agg msg` refuses it -/
+def permOk (allowNeg : Bool) (p : String) : Bool :=
+  if !p.startsWith "p" then false
+  else
+    let d := (p.drop 1).toString
+    (decBelow 9223372036854775808 d).isSome ||
+      (allowNeg && d.startsWith "-" && (decBelow 9223372036854775809 (d.drop 1).toString).isSome) ||
+      (d.startsWith "+" && (decBelow 9223372036854775808 (d.drop 1).toString).isSome)
+
 /-- drop an optional trailing `p<n>` = the order in which the record(s) list their elements (a permutation
     seed): the aggregation looks fields up by NAME, so the model's record - a structure - does not carry it -/
-def stripPerm (a : List String) : List String :=
+def stripPerm (allowNeg : Bool) (a : List String) : List String :=
   match a.reverse with
-  | p :: rest => if p.startsWith "p" && (p.drop 1).toString.toNat?.isSome then rest.reverse else a
+  | p :: rest => if permOk allowNeg p then rest.reverse else a
   | [] => a
 
-/-- the eight arguments of one record -/
+/-- the flow-key token as Go's strconv.Atoi reads it (an optional sign) -/
+def parseKeyTok (k : String) : Option Nat :=
+  if k.startsWith "+" then decBelow 9223372036854775808 (k.drop 1).toString else decBelow 9223372036854775808 k
+
+/-- the eight arguments of one record; the ranges are those the harness enforces (flowType and flowEndReason are
+    unsigned8, the two times unsigned32, the eight statistics unsigned64) -/
 def parseRecCore (a : List String) : Option InRec :=
   match a with
   | [k, ft, corr, st, en, reason, tcp, stats] => do
-    let k ← k.toNat?
-    let ft ← ft.toNat?
+    let k ← parseKeyTok k
+    let ft ← decBelow 256 ft
     let c ← parseCorr corr
-    let st ← st.toNat?
-    let en ← en.toNat?
-    let reason ← reason.toNat?
+    let st ← decBelow u32 st
+    let en ← decBelow u32 en
+    let reason ← decBelow 256 reason
     let tcp ← fromHex tcp
-    let stats ← parseNats stats
+    let stats ← (stats.splitOn ",").mapM (decBelow u64)
     if stats.length != nStats then none
     else pure { key := k, flowType := ft, corr := c, start := st, end_ := en, endReason := reason, tcpState := tcp, stats := stats }
   | _ => none
 
-def parseRec (a : List String) : Option InRec := parseRecCore (stripPerm a)
+/-- a record with any key (the linearizability harness has its own key table) -/
+def parseRec (a : List String) : Option InRec := parseRecCore (stripPerm true a)
+
+/-- the engine's key table has the five-tuples 1..6 (harness: aggKeys) -/
+def aggKeyOk (k : Nat) : Bool := 1 ≤ k && k ≤ 6
+
+/-- `agg rec` -/
+def parseRecA (a : List String) : Option InRec := (parseRec a).filter (fun r => aggKeyOk r.key)
 
 /-- split a token list at the standalone token `sep` -/
 def splitTokens (sep : String) (a : List String) : List (List String) :=
@@ -70,11 +106,17 @@ def splitTokens (sep : String) (a : List String) : List (List String) :=
 /-- five-tuples 4 and 5 of the engine's key table are IPv6 ones (harness: aggKeys) -/
 def keyIsV6 (k : Nat) : Bool := k == 4 || k == 5
 
+/-- which correlate fields a record lacks -/
+def absentMask (r : InRec) : List Bool := r.corr.map CorrV.isAbsent
+
 /-- `agg msg <rec_1> + ... + <rec_k> [p<n>]`: the records of ONE data set as the collector decodes it (one
-    template: one element order, one address family). For the aggregation a message is its records in order. -/
+    template: one element order, one address family, one set of fields - so the records lack the same correlate
+    fields). For the aggregation a message is its records in order. -/
 def parseMsg (a : List String) : Option (List InRec) :=
-  match (splitTokens "+" (stripPerm a)).mapM parseRecCore with
-  | some (r :: rs) => if rs.all (fun x => keyIsV6 x.key == keyIsV6 r.key) then some (r :: rs) else none
+  match (splitTokens "+" (stripPerm false a)).mapM parseRecCore with
+  | some (r :: rs) =>
+    if (r :: rs).all (fun x => aggKeyOk x.key) && rs.all (fun x => keyIsV6 x.key == keyIsV6 r.key && absentMask x == absentMask r)
+    then some (r :: rs) else none
   | _ => none
 
 /-- engine "agg": see harness/cmd/harness/eng_agg.go -/
@@ -85,7 +127,7 @@ def engAgg (s : Agg.State) (a : List String) : Agg.State × String :=
     | some x, some y => ({ activeT := x, inactiveT := y }, "ok")
     | _, _ => (s, "bad-op")
   | "rec" :: rest =>
-    match parseRec rest with
+    match parseRecA rest with
     | some r => (ingest s r, "ok")
     | none => (s, "bad-op")
   | "msg" :: rest =>
@@ -214,7 +256,7 @@ def chkAggC (t : C07.Tracker) (a : List String) : C07.Tracker × String :=
   match op with
   | ["new", _, _] => ({}, "holds")
   | "rec" :: rest =>
-    match parseRec rest, obs with
+    match parseRecA rest, obs with
     | some r, ["ok"] => (t.onRecord r, "holds")
     | _, _ => (t, "fails record-refused")
   | "msg" :: rest =>
@@ -284,7 +326,7 @@ def chkAggA (t : C05.Tracker) (a : List String) : C05.Tracker × String :=
   match op with
   | ["new", _, _] => ({}, "holds")
   | "rec" :: rest =>
-    match parseRec rest, obs with
+    match parseRecA rest, obs with
     | some r, ["ok"] => (t.add r.key (.record r), "holds")
     | _, _ => (t, "fails record-refused")
   | "msg" :: rest =>
